@@ -317,7 +317,7 @@ class Run:
             lines.append("KNOWN-FINDING: property=%s %s: %s" % (self.pid, fid, what))
         if self.violations:
             v = self.violations[0]
-            path = self._write_replay("input", v["replay"], v["what"], extra={"all": [x["what"] for x in self.violations[:20]]})
+            path = self._write_replay("input", v["replay"], v["what"], extra={"all": [x["what"] for x in self.violations[:300]]})
             lines.append("VIOLATION property=%s replay=%s" % (self.pid, path))
             exit_code = 1
         elif self.broken:
